@@ -1,9 +1,9 @@
 /-
   C40 — building and validating Praos / TPraos block headers.
   Mirrors consensus/block.go (`BlockBuilder.BuildHeader`, header body field set) and
-  consensus/validate.go (`HeaderValidator.ValidateHeader` checks 1–10), for inputs whose
-  byte fields have the sizes the builder itself enforces (32/64/80/448-byte fields; the size
-  checks are not modelled — the generator keeps sizes).
+  consensus/validate.go (`HeaderValidator.ValidateHeader` checks 1–10) including the byte-size
+  checks of both (`len`), and ledger/verify_block.go (`VerifyBlock`: leader VRF, KES over the
+  original header-body bytes, body hash over the original body-segment bytes).
   Parametric in the primitives: VRF, KES, Ed25519, the VRF-input construction, the header
   body serialisation and the leadership threshold test are parameters.
 -/
@@ -31,6 +31,8 @@ structure Fields (B : Type) where
 deriving DecidableEq, Repr
 
 structure Prims (B : Type) where
+  /-- byte length -/
+  len : B → Nat
   /-- `vrf.MkInputVrf(slot, nonce)` (CPraos) / `vrf.MkSeedTPraos(slot, nonce, seed)`;
       `eta = true` selects SeedEta, false SeedL -/
   mkInput : (tpraos : Bool) → (slot : Nat) → (nonce : B) → (eta : Bool) → B
@@ -83,13 +85,20 @@ structure BuildIn (B : Type) where
   protoMinor : Nat
 
 inductive BuildErr where
-  | kesKeyMismatch | notLeader
+  | badSize | kesKeyMismatch | notLeader
 deriving DecidableEq, Repr
+
+/-- the size checks `BuildHeader` makes before doing anything -/
+def sizesOk (P : Prims B) (b : Builder B) (i : BuildIn B) : Bool :=
+  P.len b.issuer == 32 && P.len i.prevHash == 32 && P.len i.nonce == 32 && P.len i.bodyHash == 32 &&
+  P.len (P.vrfPk b.vrfSk) == 32 && P.len b.ocHot == 32 && P.len b.ocSig == 64 &&
+  P.len (P.kesPk b.kesSk) == 32
 
 /-- `BuildHeader`: the header body and the KES signature over its serialisation. -/
 def build [DecidableEq B] (P : Prims B) (b : Builder B) (i : BuildIn B) :
     Except BuildErr (Fields B × B) :=
-  if P.kesPk b.kesSk ≠ b.ocHot then .error .kesKeyMismatch
+  if !sizesOk P b i then .error .badSize
+  else if P.kesPk b.kesSk ≠ b.ocHot then .error .kesKeyMismatch
   else
     let lead := P.vrfProve b.vrfSk (P.mkInput b.tpraos i.slot i.nonce false)
     if i.totalStake = 0 ∨ i.poolStake = 0 ∨ !P.below lead.2 i.poolStake i.totalStake b.tpraos then
@@ -145,6 +154,7 @@ def chkPrevHash : List Err :=
   | none => if v.f.blockNo > 0 then [.prevHash] else []
   | some h => if v.f.prevHash ≠ h then [.prevHash] else []
 def vrfOk : Bool :=
+  P.len v.nonce == 32 && P.len v.f.vrfKey == 32 && P.len v.f.vrfProof == 80 &&
   P.vrfVerify v.f.vrfKey v.f.vrfProof v.f.vrfOut (P.mkInput c.tpraos v.f.slot v.nonce false)
 def chkVrf : List Err := if vrfOk P c v then [] else [.vrf]
 def chkLeader : List Err :=
@@ -155,7 +165,11 @@ def chkNonceVrf : List Err :=
   if !c.tpraos then []
   else match v.f.nonceProof, v.f.nonceOut with
     | some p, some o =>
-      if P.vrfVerify v.f.vrfKey p o (P.mkInput c.tpraos v.f.slot v.nonce true) then [] else [.nonceVrf]
+      -- the epoch-nonce and key size errors of `verifyCertifiedVRF` carry no "nonce " label:
+      -- they read like the leader check's
+      if P.len v.nonce != 32 || P.len v.f.vrfKey != 32 then [.vrf]
+      else if P.len p == 80 && P.len o == 64 &&
+         P.vrfVerify v.f.vrfKey p o (P.mkInput c.tpraos v.f.slot v.nonce true) then [] else [.nonceVrf]
     | _, _ => [.nonceVrf]
 def chkKesPeriod : List Err :=
   if c.slotsPerKESPeriod = 0 then [.kesWindow]
@@ -165,16 +179,19 @@ def chkKesPeriod : List Err :=
     else if cur - v.f.ocPeriod ≥ c.maxKESEvolutions then [.kesWindow] else []
 def chkKesSig : List Err :=
   if c.slotsPerKESPeriod = 0 then [.kesWindow]
+  else if P.len v.kesSig ≠ 448 then [.kesSig]
+  else if P.len v.f.ocHot ≠ 32 then [.kesSig]
   else
     let cur := v.f.slot / c.slotsPerKESPeriod
     if cur < v.f.ocPeriod then [.kesWindow]
     else if P.kesVerify v.f.ocHot (cur - v.f.ocPeriod) v.bodyCbor v.kesSig then [] else [.kesSig]
 def chkOpCert : List Err :=
-  if P.edVerify v.f.issuer (P.signable v.f.ocHot v.f.ocSeq v.f.ocPeriod) v.f.ocSig then [] else [.opCert]
+  if P.len v.f.issuer == 32 && P.len v.f.ocSig == 64 &&
+     P.edVerify v.f.issuer (P.signable v.f.ocHot v.f.ocSeq v.f.ocPeriod) v.f.ocSig then [] else [.opCert]
 def chkVrfReg : List Err :=
   match v.registeredVrfKeyHash with
   | none => []
-  | some h => if P.h256 v.f.vrfKey ≠ h then [.vrfReg] else []
+  | some h => if P.len v.f.vrfKey ≠ 32 then [.vrfReg] else if P.h256 v.f.vrfKey ≠ h then [.vrfReg] else []
 
 /-- `ValidateHeader`: the errors collected, in the order of the checks. -/
 def validate : List Err :=
@@ -186,6 +203,7 @@ def valid : Bool := (validate P c v).isEmpty
 /-- `ledger.VerifyKes` / `VerifyKesComponents` on the same header: none = error -/
 def ledgerKes (spk : Nat) : Option Bool :=
   if spk = 0 then none
+  else if P.len v.kesSig ≠ 448 then none
   else
     let cur := v.f.slot / spk
     if cur < v.f.ocPeriod then some false
@@ -193,7 +211,23 @@ def ledgerKes (spk : Nat) : Option Bool :=
 
 /-- `ledger.VerifyOpCertSignature` -/
 def ledgerOpCert : Bool :=
+  P.len v.f.ocHot == 32 && P.len v.f.ocSig == 64 && P.len v.f.issuer == 32 &&
   P.edVerify v.f.issuer (P.signable v.f.ocHot v.f.ocSeq v.f.ocPeriod) v.f.ocSig
+
+inductive VBErr where
+  | vrf | kes | bodyHash
+deriving DecidableEq, Repr
+
+/-- `ledger.VerifyBlock` with transaction and stake-pool validation switched off: leader VRF
+    (no threshold), KES over the header-body bytes as they stand in the block, and the body hash
+    recomputed from the body segments as they stand in the block (`segHash`). -/
+def verifyBlock (tpraos : Bool) (spk : Nat) (segHash : B) : Except VBErr Unit :=
+  if !P.vrfVerify v.f.vrfKey v.f.vrfProof v.f.vrfOut (P.mkInput tpraos v.f.slot v.nonce false) then
+    .error .vrf
+  else match ledgerKes P v spk with
+    | none => .error .kes
+    | some false => .error .kes
+    | some true => if v.f.bodyHash ≠ segHash then .error .bodyHash else .ok ()
 
 end
 end GV.Model.Header
